@@ -306,6 +306,39 @@ func (w *World) RecordCreated(r *Run, res *OpResult) {
 	}
 }
 
+// RecordRecreated records a Create that was run over an existing set:
+// archive files of the earlier generation that this call did not write
+// but that are still on disk stay part of the archive as it stands.
+func (w *World) RecordRecreated(r *Run, res *OpResult, old map[string][]byte) {
+	w.Exps = map[string][]int{}
+	w.RecordCreated(r, res)
+	adopted := false
+	for p := range old {
+		if _, ok := w.Created[p]; ok {
+			continue
+		}
+		if b, ok := w.Disk.Get(p); ok {
+			w.Created[p] = b
+			adopted = true
+		}
+	}
+	if !adopted || w.Par1 {
+		return
+	}
+	idx, ok := w.Created[w.Index]
+	if !ok {
+		return
+	}
+	info := ref.ReadIndex(idx)
+	for p, b := range w.Created {
+		if p == w.Index {
+			continue
+		}
+		exps, _ := ref.IntactRecoveryExponents(b, info.SetID)
+		w.Exps[p] = exps
+	}
+}
+
 // Truth2 is the reference model's view of a PAR2 world state.
 type Truth2 struct {
 	Scan ref.ScanResult
